@@ -47,6 +47,13 @@ def rule_i1(F):
     if b is None:
         r.missing("runtime::Rt::declare_import")
         return r
+    if not any(mir.callee(t).endswith("::get_scope_of") for _, t in mir.calls(b)):
+        # the walk over the leading path segments moved into a helper of declare_import
+        for _, t in mir.calls(b):
+            hb = F.body(mir.callee(t)) if (mir.callee(t) or "").startswith("runtime::Rt::") else None
+            if hb is not None and hb.mir and any(mir.callee(t2).endswith("::get_scope_of") for _, t2 in mir.calls(hb)):
+                b = hb
+                break
     defs = mir.Defs(b)
     found = False
     for bi, t in mir.calls(b):
@@ -163,7 +170,11 @@ def rule_i3(F):
             r.bad(b.path, n, relfile(b.file), b.line, "Rt::add no longer runs %s" % n)
             continue
         g = [g for g in gs if any(c[0] == pos[n] for c in g["chain"])]
-        if not g:
+        # ... or the pass is the last one and its result IS the function result
+        returned = b.blocks[pos[n]]["term"]["dest"] == [0] or any(
+            d[2] == "assign" and d[3]["rv"]["k"] == "use" and mir.is_place_op(d[3]["rv"]["o"]) and d[3]["rv"]["o"][1] == b.blocks[pos[n]]["term"]["dest"]
+            for d in defs.whole_defs(0))
+        if not g and not returned:
             r.bad(b.path, n + " result", relfile(b.file), b.line, "the result of %s is not propagated" % n)
         if i > 0 and PASSES[i - 1] in pos:
             pg = [g2 for g2 in gs if any(c[0] == pos[PASSES[i - 1]] for c in g2["chain"])]
@@ -247,11 +258,18 @@ def rule_i6(F):
     belong to the same registered item (so the lookup cannot fail after the earlier passes)."""
     r = RuleResult("C18.I6", "scope lookups during registration use the scope in which the looked-up item was declared", floor=3)
     seen_fns = set()
+    # helpers that only the use-path walker calls belong to it
+    callers = {}
+    for b in F.bodies_in(["src/runtime/mod.rs"]):
+        if b.mir:
+            for _, t in mir.calls(b):
+                callers.setdefault(mir.callee(t), set()).add(b.path.split("::{closure")[0])
+    import_helpers = {p for p, cs in callers.items() if p and p.startswith("runtime::Rt::") and cs and all("declare_import" in c and "declare_imports" not in c for c in cs)}
     for b in F.bodies_in(["src/runtime/mod.rs"]):
         if not b.mir or "::tests::" in b.path or not any(x in b.path for x in ("::declare_", "Rt::")):
             continue
         fn = b.path
-        if hir.last(fn) == "declare_import" or "declare_import" in fn:
+        if hir.last(fn) == "declare_import" or "declare_import" in fn or fn in import_helpers:
             continue  # use-paths: rule I1
         defs = None
         n = 0
